@@ -8,5 +8,10 @@ CHECKS = {
    technique='SMT (z3) over symbolic execution of go/ssa: per-path equivalence with lexicographic order; NAF by exhaustive forking at small n and one-step loop induction at n=257',
    text='ConstantTimeCmp is executed symbolically for every l in the bound with all byte contents symbolic and each path result is proved equal to the sign of the big-endian comparison. DecomposeNAF is (a) run end-to-end on all inputs of 8/16 bits for w=1..7 (paths forked, digit-set and weighted-sum properties proved per path) and (b) for the production size n=257 one loop iteration is executed from every (position, carry) state with all 256 input bits symbolic and shown to preserve the recoding invariant, which gives all 2^256 inputs by induction.',
    note='Trusted: go/ssa reflects the compiler, z3, the loop-induction argument and the stated invariant. Quick tier: w=4 at all positions, w=1,2,7 at boundary positions; thorough: w=1..7 at all positions.'),
+
+ 'C02': dict(level='model_checking',
+   technique='SMT (z3): symbolic execution of SignHashed/TestPrivateKey from go/ssa with math/big as mathematical integers; linear-abstraction proofs with hypothesis-product lemmas, NIA counterexamples replayed as go tests',
+   text='The real SignHashed (retry loop, range checks, big.Int arithmetic, left-padding) is executed symbolically for all private-key byte strings of each length in the bound, all digests and all nonce streams of up to N candidates; the group, scalar-field and comparison layers are replaced by contracts that other properties discharge. On every path the solver proves that skipped candidates are exactly those the standard rejects, that the accepted candidate and the (r,s) output satisfy the standard\'s equations, and that errors occur exactly for keys outside [1,n-2]. Each rejection rule is additionally hit by a solver-constructed stream replayed on the real build.',
+   note='Trusted: contracts listed in evidence (C14/C15/C16/C20 discharge them), z3 linear arithmetic + the soundness of the monomial abstraction, go/ssa. Bounds: up to 2 (quick) / 3 (thorough) nonce candidates, key lengths listed in evidence.'),
 }
 NOT_APPLICABLE = {}
